@@ -24,8 +24,9 @@ Names are `List Char` (the prefix rules are list operations).  Validators are a 
 `validate : validator number → operation index → value → Except Exc value` (at most one validator
 runs per operation, so the operation index is the call ordinal).
 Assumption of the model (see harness/props/c11.py): every declared attribute is observed, so the
-"has notifiers" branches of `setattr_trait` are always taken; values are ints, on which the identity
-test of `setattr_trait` and the `!=` of `_change_accepted` coincide.
+"has notifiers" branches of `setattr_trait` are always taken.  A value is an object identity (`Val`);
+Python's `==` on values is the parameter `Env.eqv`, so the identity test of `setattr_trait` and the
+equality test of `_change_accepted` are distinguished.
 -/
 import TraitsVerif.Py.Basic
 namespace TraitsVerif.Model.Deleg
@@ -92,8 +93,14 @@ abbrev targetName (clsPfx : Option Name) (n : Name) (d : DelegInfo) : Name := at
 
 /-! ### Classes, objects, pool -/
 
+/-- `comparison_mode` metadata of a typed attribute (constants.py `ComparisonMode`, flags
+`TRAIT_COMPARISON_MODE_*`, ctraits.c:133-144). -/
+inductive Cmp where
+  | none | identity | equality
+  deriving DecidableEq, Repr
+
 inductive TraitDef where
-  | plain (vid : Nat) (dflt : Val)   -- typed attribute: validator number, constant default
+  | plain (vid : Nat) (dflt : Val) (cmp : Cmp)   -- typed attribute: validator number, constant default, comparison mode
   | defer (d : DelegInfo)
   | python                           -- undeclared name: the '' prefix trait of HasTraits (a Python attribute)
   deriving DecidableEq, Repr
@@ -155,8 +162,11 @@ def emptyObj : Obj := mkObj ⟨none, []⟩
 def mkPool (cs : List Cls) : Pool :=
   { size := cs.length, obj := fun i => match cs[i]? with | some c => mkObj c | none => emptyObj }
 
+/-- Parameters: the validators, and Python's `==` on values.  A `Val` is an *object identity*; two
+different values may be equal (`1`, `1.0`, `True`; two equal tuples). -/
 structure Env where
   validate : Nat → Nat → Val → Except Exc Val
+  eqv : Val → Val → Bool := fun a b => a == b
 
 structure Event where
   obj : ObjId
@@ -182,7 +192,7 @@ def read (p : Pool) : Nat → ObjId → Name → Except Exc Val
     | some v => .ok v                                   -- value in the object's dictionary
     | none =>
       match (p.obj o).cls.trait n with
-      | .plain _ dflt => .ok dflt                       -- getattr_trait: the default value
+      | .plain _ dflt _ => .ok dflt                     -- getattr_trait: the default value
       | .python => .error .attributeError               -- getattr_python
       | .defer d =>
         match (p.obj o).deleg with
@@ -210,7 +220,7 @@ def walk (p : Pool) (pfx0 : Option Name) : Nat → ObjId → DelegInfo → Name 
 `ListenerItem.register` (traits_listener.py:389).  `pfx0` = `__prefix__` of the class of the object
 `base_trait` is called on. -/
 def baseOk (p : Pool) (pfx0 : Option Name) : Nat → ObjId → TraitDef → Name → Bool
-  | _, _, .plain _ _, _ => true
+  | _, _, .plain _ _ _, _ => true
   | _, _, .python, _ => true
   | 0, _, .defer _, _ => false                          -- delegation_recursion_error2
   | f + 1, cur, .defer d, da =>
@@ -259,26 +269,48 @@ structure StepOut where
 
 def fail (p : Pool) (e : Exc) : StepOut := { pool := p, res := .error e }
 
+/-- Does `setattr_trait` call the notifiers?  `changed = flags & TRAIT_COMPARISON_MODE_NONE`, else the
+identity test `old_value != value` (ctraits.c:2390, 2423-2425, 2516-2518), decided by the flags of
+`traitd`, the trait that validates. -/
+def cChanged (cmp : Cmp) (old new : Val) : Bool := cmp = .none || old ≠ new
+
+/-- `_change_accepted(object, name, old, new)` (trait_notifiers.py:639-670; the same rule in
+`ctrait_prevent_event`, observation/_has_traits_helpers.py:118-142) for an attribute of kind `trait`:
+with comparison mode equality the wrapper drops the call when `old == new`.  For an attribute of kind
+`delegate` the wrapper always accepts. -/
+def accepted (E : Env) (cmp : Cmp) (old new : Val) : Bool :=
+  match cmp with
+  | .equality => !E.eqv old new
+  | _ => true
+
+/-- A typed attribute reports the change `(old, new)` — to its own handlers and to the forwarders hooked
+on it, which sit behind the same wrapper. -/
+def fires (E : Env) (cmp : Cmp) (old new : Val) : Bool := cChanged cmp old new && accepted E cmp old new
+
 /-- `setattr_trait(trait, trait, x, t, v)` on a typed attribute (ctraits.c:2445-2553). -/
-def setPlain (E : Env) (k : Nat) (p : Pool) (x : ObjId) (t : Name) (vid : Nat) (dflt : Val) (v : Val) : StepOut :=
+def setPlain (E : Env) (k : Nat) (p : Pool) (x : ObjId) (t : Name) (vid : Nat) (dflt : Val) (cmp : Cmp) (v : Val) :
+    StepOut :=
   match E.validate vid k v with
   | .error e => fail p e
   | .ok w =>
     let old := ((p.obj x).dict t).getD dflt
     let p' := p.setDict x t (some w)
-    { pool := p', res := .ok none, events := if old ≠ w then notify p' p'.fuel x t old w else [] }
+    { pool := p', res := .ok none, events := if fires E cmp old w then notify p' p'.fuel x t old w else [] }
 
 /-- `setattr_python` with a value (ctraits.c:2174-2195). -/
 def setPython (p : Pool) (x : ObjId) (t : Name) (v : Val) : StepOut :=
   { pool := p.setDict x t (some v), res := .ok none }
 
-/-- `setattr_trait(trait, trait, x, t, NULL)` on a typed attribute (ctraits.c:2392-2443). -/
-def delPlain (p : Pool) (x : ObjId) (t : Name) (dflt : Val) : StepOut :=
-  match (p.obj x).dict t with
-  | none => { pool := p, res := .ok none }
-  | some old =>
-    let p' := p.setDict x t none
-    { pool := p', res := .ok none, events := if old ≠ dflt then notify p' p'.fuel x t old dflt else [] }
+/-- `setattr_trait(trait, trait, x, t, NULL)` on a typed attribute (ctraits.c:2392-2443).  The value
+found in the dictionary is the assigned one or the *materialised default*: every declared typed attribute
+has been read at least once (assumption of the model: the harness reads every attribute after every
+operation, and `getattr_trait` stores the default in `__dict__`), and the delete path re-reads —
+re-materialises — it at once (ctraits.c:2417).  So `del` of a never-assigned attribute is silent except
+under comparison mode none, where it reports `(default, default)`. -/
+def delPlain (E : Env) (p : Pool) (x : ObjId) (t : Name) (dflt : Val) (cmp : Cmp) : StepOut :=
+  let old := ((p.obj x).dict t).getD dflt
+  let p' := p.setDict x t none
+  { pool := p', res := .ok none, events := if fires E cmp old dflt then notify p' p'.fuel x t old dflt else [] }
 
 /-- `setattr_python` deleting (ctraits.c:2197-2219). -/
 def delPython (p : Pool) (x : ObjId) (t : Name) : StepOut :=
@@ -319,14 +351,16 @@ def setDefer (E : Env) (k : Nat) (p : Pool) (o : ObjId) (n : Name) (d : DelegInf
     if d.modify then
       -- traitd->setattr(traitd, traitd, delegate, daname, value)            (ctraits.c:2623-2626)
       match td, v with
-      | .plain vid dflt, some v => setPlain E k p x t vid dflt v
-      | .plain _ dflt, none => delPlain p x t dflt
+      | .plain vid dflt cmp, some v => setPlain E k p x t vid dflt cmp v
+      | .plain _ dflt cmp, none => delPlain E p x t dflt cmp
       | _, some v => setPython p x t v
       | _, none => delPython p x t
     else
-      -- traitd->setattr(traito, traitd, obj, name, value), then _remove_trait_delegate_listener
+      -- traitd->setattr(traito, traitd, obj, name, value), then _remove_trait_delegate_listener.
+      -- The notifiers are those of `traito` (kind `delegate`: the wrappers accept every call); whether
+      -- they are called is decided by the comparison flags of `traitd` and the identity test.
       match td, v with
-      | .plain vid _, some v =>
+      | .plain vid _ cmp, some v =>
         match E.validate vid k v with
         | .error e => fail p e
         | .ok w =>
@@ -336,15 +370,15 @@ def setDefer (E : Env) (k : Nat) (p : Pool) (o : ObjId) (n : Name) (d : DelegInf
           | .ok old =>
             let p1 := p.setDict o n (some w)
             { pool := unlink p1 o n, res := .ok none,
-              events := if old ≠ w then notify p1 p1.fuel o n old w else [] }
-      | .plain _ _, none =>
+              events := if cChanged cmp old w then notify p1 p1.fuel o n old w else [] }
+      | .plain _ _ cmp, none =>
         match (p.obj o).dict n with
         | none => relink p o n d []                                       -- ctraits.c:2401-2404
         | some old =>
           let p1 := p.setDict o n none
           match read p1 p1.fuel o n with                                  -- ctraits.c:2417
           | .error e => { pool := p1, res := .error e, broken := true }
-          | .ok cur => relink p1 o n d (if old ≠ cur then notify p1 p1.fuel o n old cur else [])
+          | .ok cur => relink p1 o n d (if cChanged cmp old cur then notify p1 p1.fuel o n old cur else [])
       | _, some v => { pool := unlink (p.setDict o n (some v)) o n, res := .ok none }
       | _, none =>
         match (p.obj o).dict n with
@@ -374,12 +408,12 @@ def swap (p : Pool) (o : ObjId) (t : Option ObjId) : StepOut :=
 def step (E : Env) (k : Nat) (p : Pool) : Op → StepOut
   | .set o n v =>
     match (p.obj o).cls.trait n with
-    | .plain vid dflt => setPlain E k p o n vid dflt v
+    | .plain vid dflt cmp => setPlain E k p o n vid dflt cmp v
     | .python => setPython p o n v
     | .defer d => setDefer E k p o n d (some v)
   | .del o n =>
     match (p.obj o).cls.trait n with
-    | .plain _ dflt => delPlain p o n dflt
+    | .plain _ dflt cmp => delPlain E p o n dflt cmp
     | .python => delPython p o n
     | .defer d => setDefer E k p o n d none
   | .swap o t => swap p o t
